@@ -237,6 +237,48 @@ def ob_split_alone(h):
                 h.check("curve_value_unchanged_by_the_split", h.eq(cB[col][j[0]], cA[col][k]))
 
 
+def ob_utilities(h):
+    """TRANSLATE / MIRROR of the completion of user utilities and of the decision to add default utilities."""
+    from types import SimpleNamespace
+    from .C03 import cfg
+    how = h.choice("transformation", ["translate", "mirror"])
+    k = h.choice("utilities", [1, 2])
+    c = h.real("shift")
+    recs = []
+    for i in range(k):
+        kind = h.choice(f"u{i}_type", ["Hot", "Cold", "Both"])
+        active = h.choice(f"u{i}_active", [True, False])
+        ts = h.real(f"u{i}_ts")
+        tt = ts if h.choice(f"u{i}_isothermal", [False, True]) else h.real(f"u{i}_tt")
+        recs.append((kind, active, ts, tt, h.real(f"u{i}_dt", lo=0)))
+    hu_t, cu_t = h.real("HU_T_min"), h.real("CU_T_max")
+    h.stub(dp, "get_value", lambda v: v)
+    mk = lambda kind, active, ts, tt, dt: SimpleNamespace(name="U", type=kind, active=active, t_supply=ts, t_target=tt, dt_cont=dt, price=10.0, htc=1.0, heat_flow=0.0)
+    A, hu_a, cu_a = dp._complete_utility_data([mk(*r) for r in recs], cfg(), hu_t, cu_t)
+    if how == "translate":
+        B, hu_b, cu_b = dp._complete_utility_data([mk(kd, ac, ts + c, tt + c, dt) for kd, ac, ts, tt, dt in recs], cfg(), hu_t + c, cu_t + c)
+        h.check("same_decision_on_the_default_hot_utility", bool(hu_a) == bool(hu_b))
+        h.check("same_decision_on_the_default_cold_utility", bool(cu_a) == bool(cu_b))
+        for a, b in zip(A, B):
+            h.check("completed_utility_moves_by_the_shift", And(h.eq(b.t_supply, a.t_supply + c), h.eq(b.t_target, a.t_target + c), h.eq(b.dt_cont, a.dt_cont)))
+    else:
+        flip = {"Hot": "Cold", "Cold": "Hot", "Both": "Both"}
+        # recorded finding of C03: the cold-side test subtracts the contribution instead of adding it, so a utility with a non-zero
+        # contribution is judged differently as a cold utility than its mirror image is as a hot one
+        h.exclude_known("KF-C03-default-cu-sign", Or(*[dt > 0 for *_, dt in recs]))
+        # the mirror image of an isothermal TWO-WAY utility is not defined by the input format (it is completed with the glide of a cold
+        # utility in either description): two-way utilities take part with an explicit glide
+        for kd, ac, ts, tt, dt in recs:
+            if kd == "Both":
+                h.assume(Not(h.eq(ts, tt)))
+        B, hu_b, cu_b = dp._complete_utility_data([mk(flip[kd], ac, -ts, -tt, dt) for kd, ac, ts, tt, dt in recs], cfg(), -cu_t, -hu_t)
+        h.check("default_hot_utility_of_the_mirror_image_iff_default_cold_utility", bool(hu_b) == bool(cu_a))
+        h.check("default_cold_utility_of_the_mirror_image_iff_default_hot_utility", bool(cu_b) == bool(hu_a))
+        for (kd, *_), a, b in zip(recs, A, B):
+            if True:
+                h.check("completed_utility_is_mirrored", And(h.eq(b.t_supply, -a.t_supply), h.eq(b.t_target, -a.t_target)))
+
+
 def ob_rename(h):
     ren = h.choice("renaming", [{"A": "X", "B": "Y"}, {"A": "B", "B": "A"}, {"A": "Zone 1", "B": "A2"}])
     labels = [h.choice(f"label{i}", ["A", "B", "A/B"]) for i in range(2)]
@@ -280,6 +322,9 @@ def obligations():
                             bound="one stream alone, cut in series or into two parallel branches; temperatures symbolic"), split=["in_series_at_an_interior_temperature", "into_two_parallel_branches"])
     obs.append(Obligation("C12.mirror.assign.b", ob_mirror_assign, kind="bounded", functions=[ut._target_utility, ut._assign_utility, ut._maximise_utility_duty], max_paths=200000,
                           bound="heating profiles of 2..4 rows with 1..2 hot utilities vs their mirror images", doc="MIRROR of the utility assignment"))
+    obs.append(Obligation("C12.utilities.b", ob_utilities, kind="bounded", functions=[dp._complete_utility_data], max_paths=400000,
+                          bound="1..2 supplied utilities of any type / activity, all values symbolic; both descriptions executed",
+                          doc="TRANSLATE and MIRROR of the completed utility records and of the default-utility decision"))
     obs.append(Obligation("C12.rename.b", ob_rename, kind="smallscope", functions=[dp.prepare_problem], bound="two streams over labels {A, B, A/B} x three renamings x both listing orders (exhaustive)",
                           doc="RENAME"))
     return obs
